@@ -442,6 +442,9 @@ func CheckCallgrind(out string, p *profile.Profile, c Conf, idx int) []string {
 		if en.Flat.V == 0 && en.Cum.V == 0 {
 			continue
 		}
+		if en.F.Name == "" && en.F.File == "" && en.F.Addr == 0 && en.F.Line == 0 && en.Flat.Val() == 0 {
+			continue // prints as an all-empty zero-cost line, which the reader below skips as well
+		}
 		want = append(want, fmt.Sprintf("%q %q @%x:%d =%d", oneLine.Replace(en.F.Name), oneLine.Replace(en.F.File), en.F.Addr, en.F.Line, en.Flat.Val()))
 	}
 	for k, a := range m.Edges {
@@ -452,10 +455,9 @@ func CheckCallgrind(out string, p *profile.Profile, c Conf, idx int) []string {
 		wantCalls = append(wantCalls, fmt.Sprintf("%q@%x:%d -> %q = %d", oneLine.Replace(from.F.Name), from.F.Addr, from.F.Line, oneLine.Replace(to.F.Name), a.Val()))
 	}
 	for _, r := range cg.Records {
-		if r.Fn == "" && r.File == "" && r.Cost == 0 && r.Addr == 0 && len(r.Calls) == 0 {
-			continue
+		if !(r.Fn == "" && r.File == "" && r.Cost == 0 && r.Addr == 0 && r.Line == 0) {
+			got = append(got, fmt.Sprintf("%q %q @%x:%d =%d", r.Fn, r.File, r.Addr, r.Line, r.Cost))
 		}
-		got = append(got, fmt.Sprintf("%q %q @%x:%d =%d", r.Fn, r.File, r.Addr, r.Line, r.Cost))
 		for _, cl := range r.Calls {
 			gotCalls = append(gotCalls, fmt.Sprintf("%q@%x:%d -> %q = %d", r.Fn, r.Addr, r.Line, cgSuffix.ReplaceAllString(cl.Fn, ""), cl.Cost))
 		}
